@@ -51,7 +51,13 @@ theorem inbound_enforces_permissive (proto : LProto) :
     (∀ c ∈ chains .permissive proto, c.terminatesTLS = true → c.sock = .mtls ∧ c.alpn = .istio ∧ c.transportTLS = true) := by
   cases proto <;> decide
 
-/-- In no mode and for no protocol does a chain terminate TLS without requiring a client certificate. -/
+/-- In no mode and for no protocol does a chain of the mTLS table terminate TLS without requiring a
+    client certificate.  In the *model* this holds by construction (`sockFor` never yields `Sock.tls`);
+    its content comes from the ties: `chains_model_eq_impl` checks the socket column against the real
+    `ToTransportSocket`/`BuildInboundTLS` result (`require_client_certificate` and a validation
+    context present) for all 16 cells, and the `inbound` stream observes the same on the real listener.
+    One-way TLS does occur in the listener model, for Sidecar ingress listeners with user TLS settings:
+    see `inbound_user_tls_only_under_disable`. -/
 theorem inbound_never_one_way_tls (mode : MTLS) (proto : LProto) :
     ∀ c ∈ chains mode proto, c.terminatesOneWayTLS = false := by
   cases mode <;> cases proto <;> decide
@@ -63,13 +69,15 @@ theorem inbound_terminate_iff_sock (mode : MTLS) (proto : LProto) (h : mode = .s
 
 /-- **inbound_enforces**, tied to the effective mode: the filter chains generated for a workload
     port (mode = the resolver's mode for that port, which is `effectiveMode`) admit plaintext iff
-    the effective mode is not STRICT, and terminate mutual TLS iff it is not DISABLE. -/
+    the effective mode is not STRICT, terminate mutual TLS iff it is not DISABLE, never terminate
+    one-way TLS, and under STRICT every chain terminates mutual TLS (no TLS pass-through either). -/
 theorem inbound_enforces {ps : List PA} (hu : UniqueKeys ps) (root : String) (w : Workload)
     (hs : w.svcNs = []) (port : Nat) (proto : LProto) :
     let cs := chains (workloadMode root ps w port) proto
     (cs.any Chain.acceptsPlaintext = true ↔ effectiveMode ps root w port ≠ .strict) ∧
     (cs.any Chain.terminatesMTLS = true ↔ effectiveMode ps root w port ≠ .disable) ∧
-    (cs.any Chain.terminatesOneWayTLS = false) := by
+    (cs.any Chain.terminatesOneWayTLS = false) ∧
+    (effectiveMode ps root w port = .strict → ∀ c ∈ cs, c.terminatesMTLS = true) := by
   rw [compose_eq_spec hu root w hs]
   have ht := effectiveMode_total ps root w port
   cases hm : effectiveMode ps root w port with
